@@ -492,6 +492,7 @@ func c13HubHistory(r *ev.Run, g *rng.R, caseID string, kind hubKind) {
 	if res.concCancel && res.delivered > 0 {
 		r.NonTrivial(name + "/" + res.shape[:8])
 	}
+	r.Sample(map[string]any{"case": caseID, "hub": name, "producers": nProd, "receivers": nRecv, "closed_mid_run": doClose, "callbacks_run": res.delivered, "history_head": h.dump(1 << 30)[:14]})
 	r.Count(name+"_callbacks", int64(res.delivered))
 }
 
